@@ -1294,6 +1294,11 @@ func (w *RouteWorld) Done() bool {
 
 // tailSatisfied: every source has received an ack equal to its final high watermark.
 func (w *RouteWorld) tailSatisfied() bool {
+	// a stream opened in the last decisions of the chaos phase must get to run its handler
+	// before anything is judged: the fair tail lasts at least two virtual seconds
+	if w.phase == 1 && w.s.Now()-w.tailStart < 2*time.Second {
+		return false
+	}
 	for _, sh := range w.allShards() {
 		sc := sh.src
 		if sc == nil || !sc.alive() {
